@@ -490,6 +490,24 @@ def h_r1(p: Project, rep: Report):
     pfn = _flat2(p, HEADER, pfn0, p.get_class(HEADER, "OFXHeaderBase"))
     rps_, _x = _rp(pfn, expander=Expander(pfn))
     ok = bool(rps_) and all(rt.endswith(".end())") for _p, rt, _s in rps_)
+    if not ok and rps_:
+        # the end of the match spelled through span(): `_, end = m.span(); return header, end` / `m.span()[1]`
+        ok = True
+        for _p, rt, _s in rps_:
+            if rt.endswith(".end())") or rt.endswith(".span()[1])"):
+                continue
+            try:
+                v_ = ast.parse(rt, mode="eval").body
+            except SyntaxError:
+                ok = False
+                continue
+            last = v_.elts[-1] if isinstance(v_, ast.Tuple) and v_.elts else None
+            good = False
+            if isinstance(last, ast.Name):
+                for st_ in ast.walk(pfn):
+                    if isinstance(st_, ast.Assign) and len(st_.targets) == 1 and isinstance(st_.targets[0], ast.Tuple) and len(st_.targets[0].elts) == 2 and isinstance(st_.targets[0].elts[1], ast.Name) and st_.targets[0].elts[1].id == last.id and text(st_.value).endswith(".span()"):
+                        good = True
+            ok = ok and good
     rep.check("H-R1", "parse:returns-match-end", ok, "" if ok else "parse() does not return the end of the header match", hloc(p, pfn0))
     # body: rest of the stream decoded with the header's codec
     reads = [x for x in ast.walk(fn) if isinstance(x, ast.Call) and text(x.func) == f"{src}.read().decode" and x.args and "OFXHeaderV2" not in text(x.args[0])]
